@@ -13,6 +13,10 @@ CLAIMED = {
             "TLC enumerates every chain up to the length bound (incl. legacy numbering, annotations, propagation entries and all single-point corruptions) and proves the coded walkers equal the set-comprehension scan for the whole option space; every chain is rebuilt as real Git-format commits, pkg/rsl answers a seeded sample of the option space on it, and TLC judges every answer against the scan definition and the fail-closed rule.",
             "Trusted: TLC, the harness' in-memory Git-format object store and its independent entry serialiser; options sampled per chain (seeded) rather than exhaustively in the quick tier.",
             "DESIGN.md section 4 C04"),
+    "C14": ("EntryCodec.tla, MC_EntryCodec.tla, Trace_EntryCodec.tla",
+            "TLC enumerates every line-token text up to the body bound for the three entry kinds and proves the coded parser state machines accept exactly the texts with each security-relevant field once, in order and well formed (ParseI = ParseD), idempotence of parse-serialise-parse and round trip of every recordable entry; every emitted token text is rendered to bytes (seeded surface variants) and parsed by rsl.ParseEntryText, entries are recorded through the real writers and read back, fuzzed byte strings are projected to tokens, and TLC judges every observation (no panic, fields equal the definition, canonical text reparses to the same entry and message).",
+            "Exhaustive at token level only; byte level is sampled. pem.Decode is opaque. The harness lexer (text -> tokens) is trusted.",
+            "DESIGN.md section 4 C14"),
 }
 
 NOT_YET = {
